@@ -8,6 +8,7 @@ import (
 	"strings"
 
 	sdkmath "cosmossdk.io/math"
+	wasmkeeper "github.com/CosmWasm/wasmd/x/wasm/keeper"
 	wasmtypes "github.com/CosmWasm/wasmd/x/wasm/types"
 	sdk "github.com/cosmos/cosmos-sdk/types"
 	sdkerrors "github.com/cosmos/cosmos-sdk/types/errors"
@@ -198,9 +199,39 @@ func runDevGas(r *hx.R, n int, w *hx.W, _ []string) error {
 			})
 		}
 		steps := 6 + r.Pick(30)
+		formerAdmin := map[string]string{}
 		for i := 0; i < steps; i++ {
 			var op, res string
-			switch c := r.Pick(10); {
+			switch c := r.Pick(11); {
+			case c == 10: // the admin role of a contract moves (wasm MsgUpdateAdmin / MsgClearAdmin by the current admin)
+				contract := pickContract()
+				caddr := sdk.AccAddress(mustAddrOrNil(contract))
+				info := nibiru.WasmKeeper.GetContractInfo(ctx, caddr)
+				if info == nil || info.Admin == "" {
+					continue
+				}
+				cur, err := sdk.AccAddressFromBech32(info.Admin)
+				if err != nil {
+					continue
+				}
+				pk := wasmkeeper.NewDefaultPermissionKeeper(nibiru.WasmKeeper)
+				newAdmin := pickAcct()
+				if _, e := sdk.AccAddressFromBech32(newAdmin); e != nil || newAdmin == info.Admin {
+					newAdmin = ""
+				}
+				cctx, write := ctx.CacheContext()
+				if newAdmin == "" {
+					err = pk.ClearContractAdmin(cctx, caddr, cur)
+				} else {
+					err = pk.UpdateContractAdmin(cctx, caddr, cur, sdk.MustAccAddressFromBech32(newAdmin))
+				}
+				if err != nil {
+					continue
+				}
+				write()
+				formerAdmin[contract] = info.Admin
+				op = fmt.Sprintf("devgas setadmin %s %s", contract, utok(newAdmin))
+				res = "ok " + renderReg()
 			case c < 3:
 				contract := pickContract()
 				sender := pickAcct()
@@ -235,6 +266,9 @@ func runDevGas(r *hx.R, n int, w *hx.W, _ []string) error {
 						}
 					}
 				}
+				if fa, ok := formerAdmin[contract]; ok && r.Chance(1, 2) {
+					sender = fa // a former admin tries to redirect the share
+				}
 				msg := &devgastypes.MsgUpdateFeeShare{ContractAddress: contract, DeployerAddress: sender, WithdrawerAddress: wd}
 				op = fmt.Sprintf("devgas update %s %s %s", contract, sender, utok(wd))
 				res = run(msg.ValidateBasic, func(c sdk.Context) error { _, err := k.UpdateFeeShare(c, msg); return err })
@@ -247,6 +281,9 @@ func runDevGas(r *hx.R, n int, w *hx.W, _ []string) error {
 							sender = info.Creator
 						}
 					}
+				}
+				if fa, ok := formerAdmin[contract]; ok && r.Chance(1, 2) {
+					sender = fa
 				}
 				msg := &devgastypes.MsgCancelFeeShare{ContractAddress: contract, DeployerAddress: sender}
 				op = fmt.Sprintf("devgas cancel %s %s", contract, sender)
